@@ -152,6 +152,7 @@ def configs():
     return [
         ({'shape': shape, 'prop_shape': prop, 'mask': NONE}, 'shape & prop_shape given, no mask'),
         ({'shape': NONE, 'prop_shape': NONE, 'mask': NONE}, 'defaults'),
+        ({'shape': shape, 'prop_shape': NONE, 'mask': NONE}, 'shape given, prop_shape left to default to it'),
         ({'shape': shape, 'prop_shape': prop, 'mask': S('mask')}, 'with mask'),
     ]
 
